@@ -180,6 +180,11 @@ pub fn eval(c: &Case) -> CaseOut {
         for p in legal_front(c.decoy).into_iter().rev() {
             props.insert(0, p);
         }
+        // (Content Type may appear once: the one of position 1 gives way to one put in front)
+        if props.iter().filter(|p| p.id == 0x03).count() > 1 {
+            let last = props.iter().rposition(|p| p.id == 0x03).unwrap();
+            props.remove(last);
+        }
         let request = SPacket::Publish {
             dup: c.in_flags & 2 != 0 && c.in_qos > 0,
             qos: c.in_qos,
